@@ -99,6 +99,12 @@ def spec_cases(rng, maxlen):
     else:
         cases.append(("(-)", "0"))
     cases.append((f"(apply + {lst(l)})", pr(sum(l))))
+    # apply calls the function it is given: a closure keeps the variables it captured, whatever is bound at the call site
+    kk = rng.range(2, 50)
+    l3 = l[:3]
+    cases.append((f"((lambda (mk) (apply (mk {kk}) {lst(l3)})) (lambda (k) (lambda (& xs) (map (lambda (x) (add x k)) xs))))", pr([x + kk for x in l3])))
+    cases.append((f"((lambda (mk) ((lambda (k xs) (apply (mk {kk}) {lst(l3)})) 1000 'shadow)) (lambda (k) (lambda (& xs) (map (lambda (x) (add x k)) xs))))", pr([x + kk for x in l3])))
+    # (apply on a function with fixed parameters is the open finding apply-fixed-arity; it has its own probe)
     # / : no argument 1, one argument 1 divided by it, otherwise the first divided by the product of the others (truncating division)
     quot = lambda x, y: abs(x) // abs(y) * (1 if (x >= 0) == (y > 0) else -1)
     dl = [x for x in l[:4] if x != 0]
